@@ -1427,6 +1427,8 @@ func (s *Server) Connect(ctx context.Context, t Transport, opts *ServerSessionOp
 		return nil, err
 	}
 
+	verifPoint("server-connect:connection-started") // no-op unless built with the "verif" tag
+
 	// Compute the protocol versions this session can serve, filtered by the
 	// transport's capabilities (if it implements [ProtocolVersionSupporter]).
 	// The list is consumed by the SEP-2575 server/discover handler.
